@@ -1,3 +1,5 @@
+\* C41 quick: 2 channels, 2 items, 2 Stops (short/long), with and without post-commit effects, 1-2 batches in flight.
+\* 26,702 distinct states (92,140 generated), ~40 s on the loaded box.
 SPECIFICATION Spec
 CONSTANTS
   NChans = 2
